@@ -124,13 +124,17 @@ impl Scaled {
     /// TeX.2021.105
     pub fn nx_plus_y(self, mut n: i32, y: Scaled) -> Result<Scaled, OverflowError> {
         let max_answer = Scaled::MAX_DIMEN;
-        if n == 0 {
+        if n == 0 || self == Scaled::ZERO {
             return Ok(y);
         }
         let mut x = self;
         if n < 0 {
-            n = -n;
-            x = -x;
+            // -2^31 cannot be negated; the product is out of range in any case
+            n = n.checked_neg().ok_or(OverflowError {})?;
+            x = Scaled(x.0.checked_neg().ok_or(OverflowError {})?);
+        }
+        if x.0 == i32::MIN {
+            return Err(OverflowError {});
         }
         if x <= (max_answer - y) / n && -x <= (max_answer + y) / n {
             Ok(x * n + y)
